@@ -55,7 +55,7 @@ def run_mode(ctx, replay, mode, assumptions, model_fn=None, extra_traces_fn=None
     traces += t3
     n, bad = vlib.judge(ctx, "Trace_Doc", traces, cfg_text=tcfg, timeout=3400)
     vlib.report_bad(ctx, bad, sig, desc(mode),
-                    lambda ev: {"cases": [{"src": ev["src"], "style": ev["style"], "doc": ev.get("doc") or ev.get("m"), "probe": ev.get("probe", ""), "hist": ev.get("hist", 0), "poison": bool(ev.get("poison"))}],
+                    lambda ev: {"cases": [{"src": ev["src"], "style": ev["style"], "doc": ev.get("doc") or ev.get("m"), "probe": ev.get("probe", ""), "hist": ev.get("hist", 0), "poison": bool(ev.get("poison")), "deep": ev.get("deep")}],
                                 "event": {k: ev[k] for k in ("failed", "errmsg", "style", "same", "kinds") if k in ev}},
                     vlib.confirm_by_cases(ctx, "cdoc", "Trace_Doc", cfg_text=tcfg))
     cov = {
